@@ -102,7 +102,8 @@ def _expr(draw, depth):
             if n == 3:
                 args[2] = draw(st.sampled_from([1, -1, 2, -2, 3, "_"]))
             src = {"k": "slice", "of": draw(_expr(depth - 1)), "args": args, "alloc": alloc}
-        return {"k": "asg", "of": src}
+        # "drop": the source is deleted right after the assignment - the destination owns its own state
+        return {"k": "asg", "of": src, "drop": draw(st.booleans())}
     if k == "slice":
         n = draw(st.integers(0, 3))
         args = [draw(_slice_arg()) for _ in range(n)]
@@ -393,6 +394,8 @@ class Builder:
                 P.add("new %%%d heap t:Array t:Int i:1 i:2 i:3 i:4 i:5" % x)
                 P.add("new %%%d heap t:Slice %%%d i:1 i:4 i:2" % (s, x))
             P.add("assign %%%d %%%d" % (s, u), lambda o: None if o.startswith("ok") else "assign failed: " + o)
+            if e.get("drop") and e["of"].get("alloc") == "heap":
+                P.add("del %%%d" % u)
         elif k in ("arr", "lst", "tup"):
             # the same final contents reached through different mutation histories (unlink of head/tail/middle,
             # insertion at the front, growth and shrink of the backing store) - the cursors must not care
